@@ -21,11 +21,11 @@ ID = "C02"
 LEVEL = "exploration"
 RULE = (
     "(a) every valid positive response of every kind of the ISO 14229-1 layout table (Cartesian product of the "
-    "per-field boundary alphabets, widths 1..15, 0..3|4 records, records of 0,1,2,300 bytes) and 7F x all SIDs of "
+    "per-field boundary alphabets, widths 1..15, 0..3|4 records, records of 0,1,2,300,4096 (thorough also 5000) bytes) and 7F x all SIDs of "
     "the table x all 256 NRC bytes; (b) ALL byte strings of length 1..3 whose first byte is SID+0x40 of a service "
     "registered in UDSService._SERVICES or 0x7F (quick: third byte restricted to 16 boundary values); (c) mutation "
     "neighbourhood of (a) on the 2-3-value (quick) or 5-value (thorough) alphabets: every proper prefix, extension by 00/FF, every single-bit flip in "
-    "the first 8 bytes; (d) typed construction of every response class from field values followed by .pdu. "
+    "the first 8 bytes; (d) typed construction of every response class from field values followed by .pdu; (e) DB request column for one request per kind and length incl. > 4095 bytes. "
     "evaluation = one byte string parsed (a-c) or one construction (d); non-trivial = distinct byte strings for "
     "which parse_dynamic returned a TYPED response (the oracle's field/re-encode comparison was executed)"
 )
@@ -95,6 +95,20 @@ def stored_hex(resp: Any) -> tuple[str | None, str | None]:
     return params[6], None
 
 
+def stored_request_hex(req: Any) -> tuple[str | None, str | None]:
+    """what the real insert_scan_result would write into scan_result.request_pdu; (value, error)"""
+    db = G["db"]
+    db._execute_queue.got.clear()
+    try:
+        drive(db.insert_scan_result({}, req, None, None, G["when"], None, G["LogMode"].implicit))
+    except Broken:
+        raise
+    except Exception as e:  # noqa: BLE001
+        return None, type(e).__name__
+    (_, params), = db._execute_queue.got
+    return params[2], None
+
+
 # -- discovery -----------------------------------------------------------------------
 
 
@@ -134,6 +148,7 @@ def items(tier: str, seed: int) -> list[tuple[Any, ...]]:
         out.append(("mutate", k.name, tier))
         out.append(("construct", k.name, tier))
     out.append(("negative", tier))
+    out.append(("db-request", tier))
     for sid in registered_response_sids() + [0x7F]:
         if tier == "quick":
             out.append(("space", sid, 0, 256, "q"))
@@ -416,6 +431,30 @@ def run_item(item: tuple[Any, ...]) -> Result:
             for b2 in thirds:
                 tally("space", judge(res, bytes([sid, b1, b2]), "space"))
         return res
+    if what == "db-request":
+        # the request column of the same row: the bytes of every request shape with a trailing record (all record
+        # lengths of the alphabet, incl. > 4095 bytes), stored through the real insert_scan_result
+        tier = item[1]
+        for k in T.KINDS:
+            if not k.dispatch or not any(isinstance(f, T.B) for f in k.req):
+                continue
+            done: set[int] = set()
+            for vals in T.value_sets(k, "req", tier):
+                b = T.encode(k, "req", vals)
+                if len(b) in done:
+                    continue
+                done.add(len(b))
+                res.count("evaluations")
+                res.count("db_request_rows")
+                res.seen("nontrivial", ("db-request", b))
+                stored, err = stored_request_hex(s.RawRequest(b))
+                if err is not None or stored != b.hex():
+                    res.violate(
+                        f"C02|db-request-stored-differs|len{'>' if len(b) > 4095 else '<='}4095",
+                        f"request of {len(b)} bytes ({k.name}): DB would store {str(stored)[:40]}...({len(stored or '')} chars) {err or ''}",
+                        {"mode": "db-request", "hex": b.hex()},
+                    )
+        return res
     if what == "negative":
         for sid in T.SIDS + [0x00, 0x7F, 0xFF]:
             for nrc in range(256):
@@ -461,9 +500,16 @@ def run_item(item: tuple[Any, ...]) -> Result:
 def replay(doc: dict[str, Any]) -> Result:
     res = Result()
     s = G["service"]
+    if doc["mode"] == "db-request":
+        b = bytes.fromhex(doc["hex"])
+        stored, err = stored_request_hex(s.RawRequest(b))
+        print(f"   request of {len(b)} bytes; stored text has {len(stored or '')} chars, ends with {str(stored)[-12:]!r} {err or ''}")
+        if err is not None or stored != b.hex():
+            res.violate(f"C02|db-request-stored-differs|len{'>' if len(b) > 4095 else '<='}4095", "stored request differs", doc)
+        return res
     if doc["mode"] == "bytes":
         b = bytes.fromhex(doc["hex"])
-        print("   input :", b.hex())
+        print("   input :", b.hex()[:200])
         try:
             r = s.UDSResponse.parse_dynamic(b)
             print("   parsed:", repr(r))
